@@ -110,6 +110,12 @@ def enumerated(tier, seed):
             if m0 > n + 1:
                 continue
             out.append({"edges": [list(e) for e in G.edges()], "m0": m0, "rng": {"mode": "enum", "seed": seed}})
+    # two K_n glued along one edge, kept whole (m0 = n): the shared edge gives each clique the score 1/C(n,2)
+    for n in ([5, 8, 13, 23] if tier == "quick" else [5, 8, 13, 23, 34, 59]):
+        a = list(range(n))
+        b = [0, 1] + list(range(n, 2 * n - 2))
+        es = sorted({tuple(sorted(p)) for p in combinations(a, 2)} | {tuple(sorted(p)) for p in combinations(b, 2)})
+        out.append({"edges": [list(e) for e in es], "m0": n, "rng": {"mode": "seed", "seed": seed}})
     return out
 
 
